@@ -344,6 +344,19 @@ func parseContractFile(path string, extra ...string) (*ContractFile, error) {
 			defProps = cur.Props
 			cf.Groups[fields[1]] = cur
 			continue
+		case "typeinv":
+			// typeinv T props: Cxx / invariant EXPR(x) / flag footprint T.f U.g ...: an object invariant of
+			// *T - assumed for every *T that existed before the activation, established by whoever
+			// creates one, stable because the footprint fields are only ever written on fresh objects
+			cur = &Contract{Kind: "typeinv", Name: fields[1], LoopInv: map[int][]*CExpr{}, LoopDec: map[int]*CExpr{},
+				Nilable: map[string]bool{}, NonNil: map[string]bool{}, Flags: map[string]string{}, Line: ln}
+			if k := strings.Index(l, "props:"); k >= 0 {
+				cur.Props = strings.FieldsFunc(l[k+6:], func(r rune) bool { return r == ',' || r == ' ' })
+			}
+			defProps = cur.Props
+			cf.ByName["typeinv "+fields[1]] = cur
+			cf.Order = append(cf.Order, cur)
+			continue
 		case "pool":
 			cur = &Contract{Kind: "pool", Name: fields[1], LoopInv: map[int][]*CExpr{}, LoopDec: map[int]*CExpr{},
 				Nilable: map[string]bool{}, NonNil: map[string]bool{}, Flags: map[string]string{}, Line: ln, Props: []string{"C01"}}
@@ -416,7 +429,7 @@ func parseContractFile(path string, extra ...string) (*ContractFile, error) {
 			case "ensures":
 				cur.Ensures = append(cur.Ensures, ce)
 			case "invariant":
-				if loopN == 0 && cur.Kind == "pool" {
+				if loopN == 0 && (cur.Kind == "pool" || cur.Kind == "typeinv") {
 					cur.Requires = append(cur.Requires, ce) // pool invariant over x
 					continue
 				}
@@ -809,6 +822,20 @@ func (fx *FnExec) evalIdent(name string, env *evalEnv) (cval, error) {
 	if env.names == nil {
 		if v, ok := fx.params[name]; ok {
 			return fx.cvalOf(v), nil
+		}
+		// a variable captured by a closure: the name means the variable's current value
+		for _, fv := range fx.Fn.FreeVars {
+			if fv.Name() != name {
+				continue
+			}
+			if pt, ok := fv.Type().Underlying().(*types.Pointer); ok {
+				var t string
+				fx.withHeap(env.heap, func() {
+					t = fx.load(&Place{Kind: PCell, Ref: fx.term(fx.val(fv)), Elem: pt.Elem()})
+				})
+				return cval{S: t, T: pt.Elem(), Sort: fx.sortOf(pt.Elem())}, nil
+			}
+			return fx.cvalOf(fx.val(fv)), nil
 		}
 	}
 	if gs := fx.W.Contracts.ghost(name); gs != nil {
